@@ -5311,7 +5311,7 @@ impl<'a> Parser<'a> {
             let name = {
                 let ident = self.parse_identifier(false)?;
                 if !ident.value.starts_with('@') {
-                    Err(ParserError::TokenizerError(
+                    Err(ParserError::ParserError(
                         "Invalid MsSql variable declaration.".to_string(),
                     ))
                 } else {
